@@ -58,6 +58,11 @@ def pyFloorDiv (a b : Int) : R Int := if b = 0 then .error .zeroDivision else .o
 /-- Python `a % b` with a run-time divisor -/
 def pyFloorMod (a b : Int) : R Int := if b = 0 then .error .zeroDivision else .ok (Int.fmod a b)
 
+/-- `_Preconditions._check_argument(expression, parameter, message)`: ValueError when the expression is false -/
+def checkArgument (b : Bool) : R Unit := if b then .ok () else .error .valueError
+/-- `_Preconditions._check_state(expression, message)`: RuntimeError when the expression is false -/
+def checkState (b : Bool) : R Unit := if b then .ok () else .error .runtimeError
+
 end Pyoda.Gen
 
 /-! Counterparts of the helper functions and the class `Vec` of the translator's self-test corpus
@@ -73,5 +78,23 @@ structure Vec where
 def ckv (v lo hi : Int) : R Int := if v < lo ∨ v > hi then .error .valueError else .ok v
 /-- `_ovf(value)`: the value, OverflowError above 1000 -/
 def ovf (v : Int) : R Int := if v > 1000 then .error .overflowError else .ok v
+
+structure Span where
+  lo : Int
+  hi : Int
+  deriving DecidableEq, Repr, Inhabited
+
+/-- the interface `Scaler` of the corpus: a record of its virtual members -/
+structure Scaler where
+  scale : Int → Int
+  check : Int → Int → R Int
+
+structure Holder where
+  scaler : Scaler
+  bias : Int
+
+/-- must-refuse corpus: an object type with one virtual member -/
+structure Obj where
+  virt : Int → Int → Int
 
 end Pyoda.Gen.SelftestSupport
